@@ -233,45 +233,37 @@ except Exception:""")], 'detect'),
 }
 
 FU = 'boltons/fileutils.py'
-_EXIT_HEAD = """        if self.part_file:
-            # Ensure data is flushed and synced to disk before closing
-            self.part_file.flush()
-            os.fsync(self.part_file.fileno())
-            self.part_file.close()
+_EXIT_CORE = """                self.part_file.flush()
+                os.fsync(self.part_file.fileno())
+                self.part_file.close()
 """
+_RENAME = """        try:
+            atomic_rename(self.part_path, self.dest_path,
+                          overwrite=self.overwrite)
+        except OSError:"""
 MUTANTS['C04'] = {
-    'drop-fsync': ([(FU, _EXIT_HEAD, """        if self.part_file:
-            self.part_file.flush()
-            self.part_file.close()
+    'drop-fsync': ([(FU, _EXIT_CORE, """                self.part_file.flush()
+                self.part_file.close()
 """)], 'detect'),
-    'drop-flush': ([(FU, _EXIT_HEAD, """        if self.part_file:
-            os.fsync(self.part_file.fileno())
-            self.part_file.close()
+    'drop-flush': ([(FU, _EXIT_CORE, """                os.fsync(self.part_file.fileno())
+                self.part_file.close()
 """)], 'detect'),
-    'fsync-before-flush': ([(FU, _EXIT_HEAD, """        if self.part_file:
-            os.fsync(self.part_file.fileno())
-            self.part_file.flush()
-            self.part_file.close()
+    'fsync-before-flush': ([(FU, _EXIT_CORE, """                os.fsync(self.part_file.fileno())
+                self.part_file.flush()
+                self.part_file.close()
 """)], 'detect'),
-    'rename-before-flush': ([(FU, """        try:
-            atomic_rename(self.part_path, self.dest_path,
-                          overwrite=self.overwrite)
-        except OSError:""", """        try:
+    'rename-before-flush': ([(FU, _RENAME, """        try:
             pass
-        except OSError:"""), (FU, _EXIT_HEAD, """        if self.part_file and not exc_type:
-            atomic_rename(self.part_path, self.dest_path,
-                          overwrite=self.overwrite)
-        if self.part_file:
-            self.part_file.flush()
-            os.fsync(self.part_file.fileno())
-            self.part_file.close()
+        except OSError:"""), (FU, _EXIT_CORE, """                if not exc_type:
+                    atomic_rename(self.part_path, self.dest_path,
+                                  overwrite=self.overwrite)
+                self.part_file.flush()
+                os.fsync(self.part_file.fileno())
+                self.part_file.close()
 """)], 'detect'),
     'open-dest-directly': ([(FU, "        fd = os.open(self.part_path, self.open_flags, file_perms)",
                              "        fd = os.open(self.dest_path if self.overwrite else self.part_path, (self.open_flags & ~os.O_EXCL) if self.overwrite else self.open_flags, file_perms)"),
-                            (FU, """        try:
-            atomic_rename(self.part_path, self.dest_path,
-                          overwrite=self.overwrite)
-        except OSError:""", """        try:
+                            (FU, _RENAME, """        try:
             if not self.overwrite:
                 atomic_rename(self.part_path, self.dest_path,
                               overwrite=self.overwrite)
@@ -297,25 +289,22 @@ _atomic_rename""", """        if overwrite:
 
 
 _atomic_rename""")], 'detect'),
-    'close-after-rename': ([(FU, _EXIT_HEAD, """        if self.part_file:
-            self.part_file.flush()
-            os.fsync(self.part_file.fileno())
+    'close-after-rename': ([(FU, _EXIT_CORE, """                self.part_file.flush()
+                os.fsync(self.part_file.fileno())
 """), (FU, """            raise  # could not save destination file
         return""", """            raise  # could not save destination file
         finally:
             self.part_file.close()
         return""")], 'benign'),
-    'fsync-only-large': ([(FU, _EXIT_HEAD, """        if self.part_file:
-            self.part_file.flush()
-            if self.part_file.tell() > 16:
-                os.fsync(self.part_file.fileno())
-            self.part_file.close()
+    'fsync-only-large': ([(FU, _EXIT_CORE, """                self.part_file.flush()
+                if self.part_file.tell() > 16:
+                    os.fsync(self.part_file.fileno())
+                self.part_file.close()
 """)], 'detect'),
-    'fsync-skipped-when-dest-absent': ([(FU, _EXIT_HEAD, """        if self.part_file:
-            self.part_file.flush()
-            if self.overwrite:
-                os.fsync(self.part_file.fileno())
-            self.part_file.close()
+    'fsync-skipped-when-dest-absent': ([(FU, _EXIT_CORE, """                self.part_file.flush()
+                if self.overwrite:
+                    os.fsync(self.part_file.fileno())
+                self.part_file.close()
 """)], 'detect'),
     'link-path-copies': ([(FU, """            os.link(src, dst)
             os.unlink(src)""", """            fd = os.open(dst, os.O_WRONLY | os.O_CREAT | os.O_EXCL, 0o666)
@@ -470,3 +459,49 @@ MUTANTS['C18'] = {
         return ret""")], 'detect'),
     'bytes-readline-length-zero': ([(IO, "        if length:\n            return self.buffer.readline(length)", "        if length is not None:\n            return self.buffer.readline(length)")], 'benign'),
 }
+
+# ---- benign refactors: the property still holds, the checks must stay quiet -----------------------
+MUTANTS['C03']['benign-threading-module-lock'] = ([(CU, "        self._lock = RLock()\n        self._init_ll()",
+                                                    "        import threading\n        self._lock = threading.RLock()\n        self._init_ll()")], 'benign')
+MUTANTS['C02']['benign-threading-module-lock'] = MUTANTS['C03']['benign-threading-module-lock']
+MUTANTS['C03']['benign-getitem-via-helper'] = ([(CU, """    def get(self, key, default=None):
+        try:
+            return self[key]
+        except KeyError:
+            self.soft_miss_count += 1
+            return default
+""", """    def get(self, key, default=None):
+        with self._lock:
+            try:
+                return self[key]
+            except KeyError:
+                self.soft_miss_count += 1
+                return default
+""")], 'benign')
+MUTANTS['C12']['benign-monotonic-clock'] = ([(SU, "            start = time.time()\n            find_offset_start = 0", "            start = time.monotonic()\n            find_offset_start = 0"),
+                                             (SU, "                        cur_timeout = timeout - (time.time() - start)\n                        if cur_timeout <= 0.0:\n                            raise socket.timeout()\n                        sock.settimeout(cur_timeout)",
+                                                  "                        cur_timeout = timeout - (time.monotonic() - start)\n                        if cur_timeout <= 0.0:\n                            raise socket.timeout()\n                        sock.settimeout(cur_timeout)")], 'benign')
+MUTANTS['C12']['benign-recv_until-bytes-join'] = ([(SU, "            val, self.rbuf = bytes(recvd[:offset]), bytes(recvd[rbuf_offset:])",
+                                                   "            data = bytes(recvd)\n            val, self.rbuf = data[:offset], data[rbuf_offset:]")], 'benign')
+MUTANTS['C04']['benign-os-replace'] = ([(FU, "        if overwrite:\n            os.rename(src, dst)\n        else:\n            os.link(src, dst)",
+                                        "        if overwrite:\n            os.replace(src, dst)\n        else:\n            os.link(src, dst)")], 'benign')
+MUTANTS['C05']['benign-os-replace'] = MUTANTS['C04']['benign-os-replace']
+MUTANTS['C04']['benign-fdatasync-plus-dir-fsync'] = ([(FU, _RENAME, """        try:
+            atomic_rename(self.part_path, self.dest_path,
+                          overwrite=self.overwrite)
+            dfd = os.open(self.dest_dir, os.O_RDONLY)
+            try:
+                os.fsync(dfd)
+            finally:
+                os.close(dfd)
+        except OSError:""")], 'benign')
+MUTANTS['C15']['benign-uniform'] = ([(IT, "cur_ret = cur - (cur * jitter * random.random())", "cur_ret = cur - (cur * jitter * random.uniform(0.0, 1.0))")], 'benign')
+MUTANTS['C18']['benign-rollover-chunked-bytes'] = ([(IO, """            tmp = TemporaryFile(dir=self._dir)
+            pos = self.buffer.tell()
+            tmp.write(self.buffer.getvalue())
+            tmp.seek(pos)""", """            tmp = TemporaryFile(dir=self._dir)
+            pos = self.buffer.tell()
+            data = self.buffer.getvalue()
+            for i in range(0, len(data), 7):
+                tmp.write(data[i:i + 7])
+            tmp.seek(pos)""")], 'benign')
